@@ -297,6 +297,9 @@ package session
 //@   ensures cookie-first: reqCookie(c, s.sessionName, epoch) != "" ==> result == reqCookie(c, s.sessionName, epoch)
 //@   ensures cookie-store-reads-only-cookie: s.source == SourceCookie ==> result == reqCookie(c, s.sessionName, epoch)
 //@   ensures query-store: s.source == SourceURLQuery && reqCookie(c, s.sessionName, epoch) == "" ==> result == reqQuery(c, s.sessionName, epoch)
+// The id is kept in the Session and becomes a key of the storage: it must not alias the request buffer, which the
+// next request on the connection overwrites (header source: string(bytes) is a copy by construction).
+//@   ensures id-outlives-the-request: s.source != SourceHeader || reqCookie(c, s.sessionName, epoch) != "" ==> stable(result)
 // (header source: the value is RequestHeader.Peek(sessionName) on c.Request(); a clause for it would need last(Peek),
 // which callers of getSessionID cannot evaluate - engine limitation, the header case is left open)
 
